@@ -439,6 +439,33 @@ def _mk_seqof_octs_e(**s):
     return [bytes([s["o0"], s["o1"]][: s["n"]]), bytes([s["o2"]]), bytes([s["o0"]])][: s["k"]]
 
 
+# SET with an OPTIONAL member ahead (in tag order) of a mandatory list that may be empty; SEQUENCE whose DEFAULT is a SEQUENCE OF
+SET_OPTC = T("SET", comps=[("a", INT, "req", None), ("o", OCTS.tagged(("I", "C", 0)), "opt", None), ("l", T("SEQOF", elem=INT).tagged(("I", "C", 1)), "req", None),
+                           ("i", T("SEQ", comps=[("x", INT, "opt", None)]).tagged(("I", "C", 2)), "opt", None), ("m", T("SETOF", elem=OCTS).tagged(("I", "C", 3)), "req", None)],
+             name="SET{a INT,o [0]I OCTS?,l [1]I SEQOF INT,i [2]I SEQ{x INT?}?,m [3]I SETOF OCTS}")
+
+
+def _mk_set_optc(**s):
+    av = {"a": s["i0"], "l": [s["i1"], 5][: s["k"]], "m": [bytes([s["o0"]])][: s["k2"]]}
+    if s["hb"]:
+        av["o"] = bytes([s["o0"]])
+    if s["hi"]:
+        av["i"] = {"x": s["i1"]}
+    return av
+
+
+SEQ_DEFL = T("SEQ", comps=[("name", UTF8, "req", None), ("weights", T("SEQOF", elem=INT), "def", [1, 2, 3]), ("z", BOOL, "opt", None)], name="SEQ{name UTF8,weights SEQOF INT={1,2,3},z BOOL?}")
+
+
+def _mk_seq_defl(**s):
+    av = {"name": utf8_of([s["c0"]])}
+    if s["hb"]:
+        av["weights"] = [1, 2, 3] if s["w"] == 0 else [1, 2] if s["w"] == 1 else [3, 2, 1]
+    if s["hc"]:
+        av["z"] = s["f0"]
+    return av
+
+
 # OPTIONAL constructed members: "absent" and "present but empty" are different abstract values
 SEQ_OPTC = T("SEQ", comps=[("a", INT, "req", None),
                            ("i", T("SEQ", comps=[("x", INT, "opt", None)]), "opt", None),
@@ -486,6 +513,9 @@ def constructed():
     C.append(Entry("seq_hitags", SEQ_HITAGS, P_SEQ_HITAGS, _mk_seq_hitags, ["constructed", "record", "tagged_members"], shard=("hb", "he")))
     C.append(Entry("seq_hitags.E", SEQ_HITAGS_E, {"i0": SMALL, "i1": I(0, 1), "hc": B, "o0": BYTE, "n": I(0, 1)}, _mk_seq_hitags_e,
                    ["constructed", "record", "tagged_members", "has_explicit"]))
+    C.append(Entry("set_optc", SET_OPTC, {"i0": SMALL, "i1": I(0, 1), "k": I(0, 2), "k2": I(0, 1), "hb": B, "hi": B, "o0": BYTE}, _mk_set_optc,
+                   ["constructed", "record", "set", "nested"], shard=("hb", "hi")))
+    C.append(Entry("seq_defl", SEQ_DEFL, {"c0": I(0, 0x7FF), "hb": B, "w": I(0, 2), "hc": B, "f0": B}, _mk_seq_defl, ["constructed", "record", "nested"], shard=("hb",)))
     C.append(Entry("seq_2ch", SEQ_2CH, {"i0": SMALL, "i1": I(0, 1), "hb": B, "f0": B, "c0": I(0, 0x7FF), "hc": B, "w": I(0, 1), "o0": BYTE, "hd": B}, _mk_seq_2ch,
                    ["constructed", "record", "choice"], shard=("hb", "hc")))
     C.append(Entry("seqof_octs.E", SEQOF_OCTS_E, {"k": I(0, 3), "n": I(0, 2), "o0": BYTE, "o1": BYTE, "o2": BYTE}, _mk_seqof_octs_e,
